@@ -40,6 +40,19 @@ def _norm(p, start=0, *more, **opts):
     return None
 
 
+# functions of this session's __main__ that use several module-level names: dill pickles them by value, and with the library's
+# default serializer options the bytes must not depend on the order of any set (e.g. of the global names a function refers to)
+SCALE, OFFSET, UNIT, PREC = 3, 1, 'm', 2
+
+
+def affine(v):
+    return round(SCALE * v + OFFSET, PREC)
+
+
+def labelled(v, sep=' '):
+    return '%s%s%s' % (affine(v), sep, UNIT) if PREC else str(SCALE)
+
+
 class Grid(object):
     """an argument that has a python method called like the function it is passed to"""
     def __init__(self, n):
@@ -94,7 +107,11 @@ def main_class_groups(detail=None):
             continue
         h = hashlib.sha1()
         rows = []
-        for item in calls + extra:
+        fcalls = []
+        if 'dill' in name and 'recurse' not in name and ' of ' not in name:       # (a chain with a stringmap prints the function: an address)
+            # (a picklemap the USER configured with recurse=True gets dill's trimmed, set-ordered globals: not the library's doing)
+            fcalls = [((affine, 2), {}), ((labelled,), {'start': affine}), ((1,), {'w': labelled})]
+        for item in calls + extra + fcalls:
             try:
                 if len(item) == 4:
                     fn_, ign_, a_, k_ = item
@@ -108,7 +125,9 @@ def main_class_groups(detail=None):
                 r = 'raises ' + e.__class__.__name__
             h.update(r.encode('utf-8', 'backslashreplace'))
             h.update(b'\0')
-            rows.append(['f(%s)' % ', '.join([repr(x) for x in a] + ['%s=%r' % kv for kv in k.items()]), r[:300]])
+            rows.append(['f(%s)' % ', '.join([getattr(x, '__name__', None) or repr(x) for x in a] +
+                                             ['%s=%s' % (kk, getattr(vv, '__name__', None) or repr(vv)) for kk, vv in k.items()]),
+                         r if len(r) <= 300 else r[:260] + '... sha1 of all %d characters: %s' % (len(r), hashlib.sha1(r.encode('utf-8', 'backslashreplace')).hexdigest()[:16])])
         out['main/%d/%s' % (j, name)] = rows if detail is not None else [h.hexdigest()[:16], len(calls)]
     return out
 
@@ -179,7 +198,7 @@ def groups(mode, lo, hi, detail=None):
                         h.update(r.encode('utf-8', 'backslashreplace'))
                         h.update(b'\0')
                         if detail is not None:
-                            rows.append([K.call_repr(a, k), r[:300]])
+                            rows.append([K.call_repr(a, k), r if len(r) <= 300 else r[:260] + '... sha1 of all %d characters: %s' % (len(r), hashlib.sha1(r.encode('utf-8', 'backslashreplace')).hexdigest()[:16])])
                     out['%d/%d/%d/%d' % (idx, ci, j, si)] = rows if detail is not None else [h.hexdigest()[:16], len(calls)]
     return out
 
